@@ -403,6 +403,9 @@ func c02Run(r *core.Run) {
 			s.Cfg.Store.FailAt = s.Cfg.Store.Calls + storeErr
 		}
 		enc := world.Present(xml, t.Bool("c02.compress"), 6)
+		if t.Int(6, "c02.ambient") == 1 {
+			s.NeighbourNoise(enc)
+		}
 		firedBefore := s.Cfg.Store.Fired
 		var out world.Outcome
 		flag := false
